@@ -745,6 +745,7 @@ func (m *Nitro) GC() {
 	verifYield(107, 0) // verif: GC before try-lock
 	if atomic.CompareAndSwapInt32(&m.isGCRunning, 0, 1) {
 		m.collectDead()
+		verifYield(109, 0) // verif: GC after the pass, before releasing the flag
 		atomic.CompareAndSwapInt32(&m.isGCRunning, 1, 0)
 	}
 }
